@@ -36,7 +36,9 @@ Ltac text_tac H :=
 Lemma text_step : forall (s : state) (r : request) resp s',
   handle s r = Ok (resp, s') ->
   st_text s' = (if is_post RScenario r && Nat.eqb (rs_status resp) 200 then Some (rq_raw r) else st_text s)
-  /\ st_soltext s' = (if is_post RSolutions r && Nat.eqb (rs_status resp) 200 then Some (rq_raw r) else st_soltext s).
+  /\ st_soltext s' = (if is_post RSolutions r && Nat.eqb (rs_status resp) 200 then Some (rq_raw r)
+                      else if is_post RScenario r && Nat.eqb (rs_status resp) 200 then None   (* the summary of the replaced scenario is forgotten *)
+                      else st_soltext s).
 Proof.
   intros s r resp s' H. unfold handle in H. unfold is_post.
   destruct (rq_route r); destruct (rq_meth r);
@@ -66,10 +68,14 @@ Fixpoint applied (s : state) (rs : list request) : list request :=
       end
   end.
 
+(* the text a stored-text resource holds after the successful requests [ws]: the body of the last POST to it; a
+   successful POST /scenario also forgets the solutions text (it belonged to the scenario being replaced) *)
+Definition forgets (rt : route) (r : request) : bool :=
+  match rt with RSolutions => is_post RScenario r | _ => false end.
 Fixpoint last_posted (rt : route) (ws : list request) (acc : option text) : option text :=
   match ws with
   | [] => acc
-  | r :: ws' => last_posted rt ws' (if is_post rt r then Some (rq_raw r) else acc)
+  | r :: ws' => last_posted rt ws' (if is_post rt r then Some (rq_raw r) else if forgets rt r then None else acc)
   end.
 
 Lemma texts_of_run : forall (rs : list request) (s s' : state),
@@ -647,12 +653,12 @@ Proof.
   destruct (rq_toml r) as [|name mv|]; try discriminate; try (unfold fail in H; inversion H; subst; simpl in Hst; discriminate).
   destruct mv as [| | |d|]; try discriminate; try (unfold fail in H; inversion H; subst; simpl in Hst; discriminate).
   unfold res_bind in H.
-  match type of H with context[derive (st_soltable s) ?mm] => destruct (derive (st_soltable s) mm) as [m1|] eqn:ED; [|discriminate] end.
+  match type of H with context[derive None ?mm] => destruct (derive None mm) as [m1|] eqn:ED; [|discriminate] end.
   unfold respond in H. inversion H; subst. simpl. exists m1. split; [reflexivity|].
   assert (T0 : forall k, tidy (ca_replace [] "ModelSuppliedPlanningUnitName" (AStr "SubCatchment")) k).
   { intro k. unfold ca_replace, a_has. cbn [a_value is_null negb]. unfold a_add. cbn [app]. unfold tidy. cbn [a_count a_value].
     destruct (String.eqb "ModelSuppliedPlanningUnitName" k) eqn:E; [right; split; [reflexivity|discriminate]|left; reflexivity]. }
-  destruct (derive_view (st_soltable s) _ m1 ED) as (Vw & TT & _).
+  destruct (derive_view None _ m1 ED) as (Vw & TT & _).
   { simpl. repeat split; apply T0. }
   simpl in Vw, TT. split; [repeat split; apply TT, T0|]. split; [apply TT, T0|].
   rewrite Vw. reflexivity.
@@ -698,6 +704,244 @@ Lemma solution_read_keeps_resources : forall (s : state) label resp s',
   get_solution s label = Ok (resp, s') -> resources s' = resources s /\ st_model s' = st_model s /\ st_soltable s' = st_soltable s.
 Proof.
   intros s label resp s' H. unfold get_solution, respond, fail, res_bind in H. break_in H; inv_ok H; simpl; repeat split; congruence.
+Qed.
+
+(* ------------------------------------------------------------------------------------------------ *)
+(** * [tidy5] is an invariant of the reachable states                                                *)
+(* PATCH /model refuses the engine-maintained attribute names (validatePatchAttributes, proposed_fixes/C14-6), so no
+   client request can untidy them. *)
+
+Definition I5 (a : attrs) : Prop := tidy5 a /\ a_has a "Encoding" = true.
+Definition Tidy (s : state) : Prop := forall m, st_model s = Some m -> I5 (m_attrs m).
+
+Lemma Tidy_init : Tidy init_state.
+Proof. intros m H. discriminate. Qed.
+
+Lemma value_has : forall a k v, a_value a k = v -> is_null v = false -> a_has a k = true.
+Proof. intros a k v H Hn. unfold a_has. rewrite H, Hn. reflexivity. Qed.
+
+Lemma derive_I5 : forall tbl (m m' : mstate), derive tbl m = Ok m' -> tidy5 (m_attrs m) -> I5 (m_attrs m').
+Proof.
+  intros tbl m m' H ((T1 & T2 & T3 & T4) & T5 & V5).
+  destruct (derive_view tbl m m' H) as (Vw & TT & _); [repeat split; assumption|].
+  split.
+  - split; [repeat split; apply TT; assumption|]. split; [now apply TT|]. rewrite Vw. unfold dview, mspun. simpl. exact V5.
+  - eapply value_has; [apply Vw|]. reflexivity.
+Qed.
+
+Lemma Wrote_I5 : forall tbl (m m' : mstate), Wrote tbl m m' -> tidy5 (m_attrs m) -> I5 (m_attrs m').
+Proof.
+  intros tbl m m' (_ & _ & W) T5. destruct (W T5) as [T5' Vw]. split; [exact T5'|].
+  eapply value_has; [apply Vw|]. reflexivity.
+Qed.
+
+(* --- JoiningAttributes with a validated patch --- *)
+Definition joinf (a : attrs) (acc : attrs) (p : string * aval) : attrs :=
+  if a_has a (fst p) then a_replace acc (fst p) (snd p) else a_add acc (fst p) (snd p).
+Lemma a_join_fold : forall a l, a_join a l = fold_left (joinf a) l a.
+Proof. reflexivity. Qed.
+
+Lemma joinf_other : forall a acc n v k, String.eqb n k = false ->
+  a_count (joinf a acc (n, v)) k = a_count acc k /\ a_value (joinf a acc (n, v)) k = a_value acc k.
+Proof.
+  intros a acc n v k Hn. assert (Hk : String.eqb k n = false) by (now rewrite String.eqb_sym).
+  unfold joinf. cbn [fst snd]. destruct (a_has a n).
+  - rewrite count_replace, value_replace, Hk. split; reflexivity.
+  - rewrite count_add, value_add, Hn. split; [lia|].
+    destruct (Nat.eqb (a_count acc k) 0) eqn:E; [|reflexivity]. apply Nat.eqb_eq in E. now rewrite (count0_value acc k E).
+Qed.
+
+Lemma join_fold_other : forall (a : attrs) k (l : attrs) (acc : attrs),
+  (forall n v, In (n, v) l -> String.eqb n k = false) ->
+  a_count (fold_left (joinf a) l acc) k = a_count acc k /\ a_value (fold_left (joinf a) l acc) k = a_value acc k.
+Proof.
+  intros a k l. induction l as [|[n v] l IH]; intros acc Hl; cbn [fold_left]; [split; reflexivity|].
+  destruct (IH (joinf a acc (n, v))) as [C Vv]; [intros n' v' Hin; apply (Hl n' v'); now right|].
+  destruct (joinf_other a acc n v k (Hl n v (or_introl eq_refl))) as [C1 V1].
+  rewrite C, Vv, C1, V1. split; reflexivity.
+Qed.
+
+Lemma join_fold_encoding : forall (a : attrs) (l : attrs) (acc : attrs),
+  a_has a "Encoding" = true ->
+  (forall v, In ("Encoding", v) l -> is_null v = false) ->
+  a_count acc "Encoding" = 1 -> a_value acc "Encoding" <> ANull ->
+  a_count (fold_left (joinf a) l acc) "Encoding" = 1 /\ a_value (fold_left (joinf a) l acc) "Encoding" <> ANull.
+Proof.
+  intros a l. induction l as [|[n v] l IH]; intros acc Ha Hl C Vn; cbn [fold_left]; [split; assumption|].
+  apply IH; try assumption.
+  - intros v' Hin. apply Hl. now right.
+  - destruct (String.eqb n "Encoding") eqn:En.
+    + apply String.eqb_eq in En; subst n. unfold joinf. cbn [fst snd]. rewrite Ha. now rewrite count_replace.
+    + destruct (joinf_other a acc n v "Encoding" En) as [C1 _]. now rewrite C1.
+  - destruct (String.eqb n "Encoding") eqn:En.
+    + apply String.eqb_eq in En; subst n. unfold joinf. cbn [fst snd]. rewrite Ha. rewrite value_replace, String.eqb_refl, C. cbn [Nat.eqb].
+      specialize (Hl v (or_introl eq_refl)). destruct v; simpl in Hl; congruence.
+    + destruct (joinf_other a acc n v "Encoding" En) as [_ V1]. now rewrite V1.
+Qed.
+
+Lemma patch_valid_facts : forall n (l : attrs), patch_valid n l = true ->
+  (forall k v, In (k, v) l -> engine_maintained k = false) /\ (forall v, In ("Encoding", v) l -> is_null v = false).
+Proof.
+  intros n l. induction l as [|[k v] l IH]; intro H; [split; [intros k v []|intros v []]|].
+  cbn [patch_valid] in H. destruct (engine_maintained k) eqn:Em; [discriminate|].
+  assert (Hrest : patch_valid n l = true).
+  { destruct (String.eqb k "Encoding"); [|exact H]. destruct v; try discriminate. apply andb_true_iff in H. tauto. }
+  destruct (IH Hrest) as [I1 I2]. split.
+  - intros k' v' [Heq|Hin]; [inversion Heq; subst; exact Em|eauto].
+  - intros v' [Heq|Hin]; [|eauto]. inversion Heq; subst. rewrite String.eqb_refl in H. destruct v'; try discriminate; reflexivity.
+Qed.
+
+Lemma not_maintained : forall k, engine_maintained k = false ->
+  String.eqb k mspun = false /\ String.eqb k "ParetoFrontMember" = false
+  /\ String.eqb k "ValidAgainstScenario" = false /\ String.eqb k "ValidationErrors" = false.
+Proof.
+  intros k H. unfold engine_maintained in H. repeat (apply orb_false_iff in H; destruct H as [H ?]). unfold mspun. tauto.
+Qed.
+
+Lemma tidy_of_same : forall a a' k, a_count a' k = a_count a k -> a_value a' k = a_value a k -> tidy a k -> tidy a' k.
+Proof. intros a a' k C Vv T. unfold tidy in *. now rewrite C, Vv. Qed.
+
+Lemma join_tidy5 : forall n (a l : attrs), I5 a -> patch_valid n l = true -> tidy5 (a_join a l).
+Proof.
+  intros n a l [((T1 & T2 & T3 & T4) & Tm & Vm) Ha] Hv.
+  destruct (patch_valid_facts n l Hv) as [Hm He].
+  assert (Hother : forall k, (k = mspun \/ k = "ParetoFrontMember" \/ k = "ValidAgainstScenario" \/ k = "ValidationErrors") ->
+                   a_count (a_join a l) k = a_count a k /\ a_value (a_join a l) k = a_value a k).
+  { intros k Hk. rewrite a_join_fold. apply join_fold_other. intros n0 v0 Hin.
+    destruct (not_maintained n0 (Hm n0 v0 Hin)) as (N1 & N2 & N3 & N4).
+    destruct Hk as [Hk|[Hk|[Hk|Hk]]]; subst k; assumption. }
+  assert (CE : a_count a "Encoding" = 1 /\ a_value a "Encoding" <> ANull).
+  { unfold a_has in Ha. destruct T1 as [C0|[C1 Vn]]; [rewrite (count0_value a _ C0) in Ha; discriminate|]. split; assumption. }
+  destruct CE as [C1 Vn].
+  destruct (join_fold_encoding a l a Ha He C1 Vn) as [CJ VJ]. rewrite <- a_join_fold in CJ, VJ.
+  destruct (Hother mspun (or_introl eq_refl)) as [Cm Vmm].
+  destruct (Hother "ParetoFrontMember" (or_intror (or_introl eq_refl))) as [Cp Vp].
+  destruct (Hother "ValidAgainstScenario" (or_intror (or_intror (or_introl eq_refl)))) as [Cv Vv].
+  destruct (Hother "ValidationErrors" (or_intror (or_intror (or_intror eq_refl)))) as [Ce Ve].
+  split; [|split].
+  - split; [right; split; assumption|]. split; [eapply tidy_of_same; eauto|]. split; eapply tidy_of_same; eauto.
+  - eapply tidy_of_same; eauto.
+  - now rewrite Vmm.
+Qed.
+
+(* the application loop keeps tidy5 *)
+Lemma patch_apply_tidy : forall tbl (l : attrs) (m : mstate) sn m' sn',
+  patch_apply tbl l m sn = Ok (Some (m', sn')) -> tidy5 (m_attrs m) -> tidy5 (m_attrs m').
+Proof.
+  intros tbl l. induction l as [|[k v] l IH]; intros m sn m' sn' H T5; cbn [patch_apply] in H.
+  - inversion H; subst. exact T5.
+  - destruct (String.eqb k "Encoding"); [|eapply IH; eauto].
+    destruct v as [| |e|]; try discriminate.
+    destruct (decode (List.length (d_actions (m_desc m))) (m_bits m) e) as [ok bits]. destruct ok; [|discriminate].
+    unfold res_bind in H.
+    match type of H with context[derive tbl ?mm] => destruct (derive tbl mm) as [m1|] eqn:ED; [|discriminate] end.
+    apply (IH m1 (snapshot_of m1) m' sn' H).
+    destruct T5 as ((T1 & T2 & T3 & T4) & Tm & Vm).
+    assert (Um : upd (m_attrs m) (ca_replace (m_attrs m) "ModelSuppliedPlanningUnitName" (AStr "SubCatchment")) mspun (AStr "SubCatchment"))
+      by (apply ca_replace_upd; [exact Tm|reflexivity]).
+    apply (derive_I5 tbl _ m1 ED). simpl.
+    split; [repeat split; eapply upd_tidy_other; eauto|]. split; [eapply upd_tidy_self; eauto|].
+    destruct Um as [Hv _]. rewrite Hv. unfold mspun. now rewrite String.eqb_refl.
+Qed.
+
+Ltac use_inv2 HI :=
+  let HE := fresh "HE" in let HT := fresh "HT" in let HS := fresh "HS" in
+  destruct HI as [[HE | HE] [HT HS]];
+  [ destruct HE as (Et & En & Em & Esn & Ep & Est & Esb)
+  | destruct HE as (t0 & n0 & m0 & p0 & Et & En & Em & Ep & Esn & Eid & Elen) ].
+
+Lemma patch_model_tidy : forall s r resp s', Inv s -> Tidy s -> patch_model s r = Ok (resp, s') -> Tidy s'.
+Proof.
+  intros s r resp s' HI HTidy H. unfold patch_model in H.
+  use_inv2 HI; rewrite Esn in H; [unfold fail in H; inversion H; subst; exact HTidy|].
+  destruct (rq_ctype r); try (unfold fail in H; inversion H; subst; exact HTidy).
+  destruct (rq_json r) as [|l|]; [unfold fail in H; inversion H; subst; exact HTidy| |discriminate].
+  rewrite Em in H.
+  destruct (patch_valid (List.length (d_actions (m_desc m0))) l) eqn:Hv; cbn [negb] in H;
+    [|unfold fail in H; inversion H; subst; exact HTidy].
+  unfold res_bind in H.
+  match type of H with context[patch_apply ?tb l ?mj ?sn] => destruct (patch_apply tb l mj sn) as [[[m2 sn2]|]|] eqn:EP; try discriminate end.
+  - destruct (derive (st_soltable s) m2) as [m3|] eqn:ED; [|discriminate].
+    unfold respond in H. inversion H; subst. intros m Hm. unfold with_model in Hm. simpl in Hm. inversion Hm; subst m.
+    apply (derive_I5 _ _ _ ED). eapply patch_apply_tidy; [exact EP|]. simpl.
+    eapply join_tidy5; [apply HTidy; exact Em|exact Hv].
+  - (* the loop answered 400: not reachable after validation (patch_apply_ok) *)
+    exfalso.
+    match type of EP with patch_apply ?tb l ?mj ?sn = _ =>
+      destruct (patch_apply_ok tb l mj sn HT Elen Hv) as (m2 & sn2 & E2 & _) end.
+    rewrite E2 in EP. discriminate.
+Qed.
+
+Lemma handle_tidy : forall s r resp s', Inv s -> wf_request r = true -> Tidy s -> handle s r = Ok (resp, s') -> Tidy s'.
+Proof.
+  intros s r resp s' HI Hwf HTidy H.
+  assert (Same : st_model s' = st_model s -> Tidy s') by (intros E m Hm; apply HTidy; congruence).
+  pose proof H as H0. unfold handle in H.
+  destruct (rq_route r) eqn:Er; destruct (rq_meth r) eqn:Em;
+    try (unfold fail in H; inversion H; subst; exact HTidy).
+  - destruct (get_scenario_read s HI) as [r0 E0]. rewrite H in E0. inversion E0; subst. exact HTidy.
+  - (* POST /scenario *)
+    destruct (Nat.eqb (rs_status resp) 200) eqn:E200.
+    + apply Nat.eqb_eq in E200. destruct (post_scenario_tidy s r resp s' H E200) as (m1 & Em1 & T5).
+      intros m Hm. rewrite Em1 in Hm. inversion Hm; subst m. split; [exact T5|].
+      (* Encoding was just derived *)
+      unfold post_scenario in H. unfold res_bind, fail, respond in H.
+      repeat match type of H with context[match ?x with _ => _ end] => destruct x eqn:?; try discriminate end;
+        inversion H; subst; simpl in *; try discriminate.
+      inversion Em1; subst.
+      match goal with E : derive None ?mm = Ok _ |- _ =>
+        destruct (derive_view None mm m1 E) as (Vw & _) end.
+      { simpl. unfold ca_replace, a_has. cbn [a_value is_null negb]. unfold a_add. cbn [app]. unfold tidy4, tidy. cbn [a_count].
+        repeat split; left; reflexivity. }
+      eapply value_has; [apply Vw|]. reflexivity.
+    + assert (s' = s).
+      { destruct (handle_spec s r HI Hwf) as (r1 & s1 & E1 & _ & Hs). rewrite H0 in E1. inversion E1; subst. apply Hs.
+        intro Hc. rewrite Hc in E200. discriminate. }
+      subst. exact HTidy.
+  - destruct (get_solutions_read s HI) as [r0 E0]. rewrite H in E0. inversion E0; subst. exact HTidy.
+  - (* POST /solutions: the model is not touched *)
+    apply Same. unfold post_solutions, fail, respond, res_bind, need_name in H.
+    repeat match type of H with context[match ?x with _ => _ end] => destruct x eqn:?; try discriminate end;
+      inversion H; subst; simpl; congruence.
+  - apply Same. now destruct (solution_read_keeps_resources s label resp s' H) as (_ & E & _).
+  - destruct (get_model_read s HI) as [r0 E0]. rewrite H in E0. inversion E0; subst. exact HTidy.
+  - eapply patch_model_tidy; eauto.
+  - destruct (get_applicable_read s HI) as [r0 E0]. rewrite H in E0. inversion E0; subst. exact HTidy.
+  - destruct (get_active_read s HI) as [r0 E0]. rewrite H in E0. inversion E0; subst. exact HTidy.
+  - destruct (put_active_step s r resp s' HI Hwf H) as [[Hs _]|(_ & m & m1 & Emm & Es & W)]; [subst; exact HTidy|].
+    subst s'. intros mm Hm. unfold with_model in Hm; simpl in Hm. inversion Hm; subst mm.
+    eapply Wrote_I5; [exact W|]. exact (proj1 (HTidy m Emm)).
+  - destruct (get_subcatchment_read s id HI) as [r0 E0]. rewrite H in E0. inversion E0; subst. exact HTidy.
+  - destruct (put_subcatchment_step s id r resp s' HI Hwf H) as [[Hs _]|(_ & m & m1 & Emm & Es & W)]; [subst; exact HTidy|].
+    subst s'. intros mm Hm. unfold with_model in Hm; simpl in Hm. inversion Hm; subst mm.
+    eapply Wrote_I5; [exact W|]. exact (proj1 (HTidy m Emm)).
+Qed.
+
+Lemma run_tidy : forall (rs : list request) s s', Inv s -> Tidy s -> forallb wf_request rs = true -> run s rs = Ok s' -> Tidy s'.
+Proof.
+  induction rs as [|r rs IH]; intros s s' HI HT Hwf Hrun; simpl in *.
+  - inversion Hrun; subst. exact HT.
+  - apply andb_true_iff in Hwf. destruct Hwf as [Hr Hrs].
+    destruct (handle s r) as [[resp s1]|] eqn:E; [|discriminate].
+    destruct (handle_spec s r HI Hr) as (r1 & s10 & E1 & HI1 & _). rewrite E in E1. inversion E1; subst r1 s10.
+    apply (IH s1 s' HI1 (handle_tidy s r resp s1 HI Hr HT E) Hrs Hrun).
+Qed.
+
+Lemma reachable_tidy : forall s, reachable s -> Tidy s.
+Proof. intros s (rs & Hwf & Hrun). exact (run_tidy rs init_state s Inv_init Tidy_init Hwf Hrun). Qed.
+
+(* route equivalence at full strength: the hypothesis [tidy5] of [route_equivalence] holds in every reachable state *)
+Theorem route_equivalence_full : forall (s s1 s2 : state) (rs1 rs2 : list request),
+  reachable s ->
+  forallb wf_request rs1 = true -> forallb pure_route rs1 = true -> run s rs1 = Ok s1 -> wrote s rs1 = true ->
+  forallb wf_request rs2 = true -> forallb pure_route rs2 = true -> run s rs2 = Ok s2 -> wrote s rs2 = true ->
+  option_map m_bits (st_model s1) = option_map m_bits (st_model s2) ->
+  exists sn1 sn2, st_snap s1 = Some sn1 /\ st_snap s2 = Some sn2 /\ same_representation sn1 sn2.
+Proof.
+  intros s s1 s2 rs1 rs2 Hr Hw1 Hp1 Hr1 Hwr1 Hw2 Hp2 Hr2 Hwr2 Hb.
+  pose proof (reachable_Inv s Hr) as HI.
+  destruct (pure_run rs1 s s1 HI Hw1 Hp1 Hr1) as [[_ Hc]|(_ & m & m1 & Em & _)]; [congruence|].
+  exact (route_equivalence s s1 s2 rs1 rs2 m Hr Em (proj1 (reachable_tidy s Hr m Em)) Hw1 Hp1 Hr1 Hwr1 Hw2 Hp2 Hr2 Hwr2 Hb).
 Qed.
 
 End C14.
